@@ -24,7 +24,10 @@ RULE = ('exhaustive: every unit name x every prefix (20 incl. da) + bare, each '
         'factors; conversions between compatible pairs; malformed variants. '
         'Non-trivial = an expression containing >=1 unit name whose value and '
         'all seven exponents were compared (or a malformed text whose '
-        'rejection class was decided); distinct by text.')
+        'rejection class was decided); distinct by text.'
+        ' '
+        'Round 20: half of the exhaustive lookups preceded by a caller'
+        ' changing the returned quantity with augmented assignments.')
 ASSUMPTIONS = [
     'no division by a zero-valued factor, no 0^negative (ZeroDivisionError is '
     'not classified by the statement); exponents bounded so values stay in '
